@@ -61,6 +61,8 @@ pub enum Adv {
     EchoOwn,
     // API calls the documentation allows
     OfflineOnline,
+    /// go offline, continue with a different application list (allowed while offline), go online
+    OfflineSwitchApps(u8),
     RequestDiagnostics,
     WriteOutputs(u8),
     Silence(u32),
@@ -89,7 +91,7 @@ pub fn adv_symbol(i: u64) -> Adv {
 }
 
 pub fn gen_adv(t: &mut Tape) -> Adv {
-    match t.weighted(&[3, 3, 2, 2, 1, 3, 3, 3, 4, 4, 2, 3, 3, 2, 1, 1, 1, 2]) {
+    match t.weighted(&[3, 3, 2, 2, 1, 3, 3, 3, 4, 4, 2, 3, 3, 2, 1, 1, 1, 2, 1]) {
         0 => Adv::TokenFromPartner,
         1 => Adv::TokenFromStranger,
         2 => Adv::TokenOwnSource,
@@ -127,7 +129,8 @@ pub fn gen_adv(t: &mut Tape) -> Adv {
         14 => Adv::OfflineOnline,
         15 => Adv::RequestDiagnostics,
         16 => Adv::WriteOutputs(t.u8()),
-        _ => Adv::Silence(*t.pick(&[1u32, 2, 8, 40])),
+        17 => Adv::Silence(*t.pick(&[1u32, 2, 8, 40])),
+        _ => Adv::OfflineSwitchApps(t.below(6) as u8),
     }
 }
 
@@ -221,6 +224,7 @@ pub fn run_program(s: &Setup, schedule: &[(u32, Adv)], until_state: Option<&str>
     let mut wait = schedule.first().map(|x| x.0).unwrap_or(0);
     let mut held_back = until_state.is_some();
     let mut tail = tail_polls;
+    let mut mode = s.app;
     let max_polls = 40_000u64;
     loop {
         if out.polls >= max_polls {
@@ -281,6 +285,12 @@ pub fn run_program(s: &Setup, schedule: &[(u32, Adv)], until_state: Option<&str>
                         f.set_online();
                         None
                     }
+                    Adv::OfflineSwitchApps(k) => {
+                        f.set_offline();
+                        mode = [AppMode::None, AppMode::Dp, AppMode::LiveList, AppMode::Scanner, AppMode::DpAndScanner, AppMode::LiveListAndDp][k as usize % 6];
+                        f.set_online();
+                        None
+                    }
                     Adv::RequestDiagnostics => {
                         if let Some(h) = handles.first() {
                             master.get_mut(*h).request_diagnostics();
@@ -330,7 +340,7 @@ pub fn run_program(s: &Setup, schedule: &[(u32, Adv)], until_state: Option<&str>
             bus.inject(1, t.max(now - poll_us), &d);
         }
         let inst = Instant::from_micros(now);
-        match s.app {
+        match mode {
             AppMode::None => f.poll(inst, &mut phy, &mut ()),
             AppMode::Dp => f.poll(inst, &mut phy, &mut master),
             AppMode::LiveList => f.poll(inst, &mut phy, &mut ll),
